@@ -115,3 +115,21 @@ def tree_streams(check, prop):
             ops += ["put %s 5a5a" % hexs(k) for k in keys[:n]] + ["rm %s" % hexs(k) for k in keys[:n:2]] + ["end"]
         sts.append(S("copies-then-mutate", ops))
     return sts
+
+
+# ------------------------------------------------------------------ list / queue / stack / grow buffer / vector
+
+@provider
+def seq_streams(check, prop):
+    from checks import seqoverlay
+    return seqoverlay.streams(check, prop)
+
+
+# ------------------------------------------------------------------ hash table and list table
+
+@provider
+def map_streams(check, prop):
+    """qhashtbl / qlisttbl: fault forms in lean/QlibcModel/{HashTbl,ListTbl}/Fault.lean, theorems in
+    Props/C15Map.lean and Props/C11Map.lean, oracles and generators in checks/mapcommon.py"""
+    from checks import mapcommon
+    return mapcommon.hash_streams(check, prop) + mapcommon.list_streams(check, prop)
